@@ -318,6 +318,8 @@ func init() {
 		sb.WriteString("def consumerRecvConds : List String := " + leanStrList(recvConds) + "\n")
 		sb.WriteString("def checkGoroutineConds : List String := " + leanStrList(checkConds) + "\n")
 		sb.WriteString("def finalErrorRule : String := " + leanStr(finalRule) + "\n")
+		sb.WriteString("/-- the rule also fires for maxResults == 0 (\"no limit\") -/\n")
+		sb.WriteString("def zeroLimitReportsErrors : Bool := " + b(strings.Contains(finalRule, "maxResults == 0 ||")) + "\n")
 		sb.WriteString("def executeOrder : List String := " + leanStrList(execOrder) + "\n")
 		sb.WriteString("def visitedKeyFormat : String := " + leanStr(visitedKey) + "\n")
 		sb.WriteString("def readTuplesLoopConds : List String := " + leanStrList(readConds) + "\n")
